@@ -111,47 +111,77 @@ func (f *cirFlow) edgeOK(v constant.Value) func(b *cfg.Block, succ int) bool {
 		if !ok {
 			return true
 		}
-		truth, decided := false, false
-		if f.Extra != nil {
-			if t, ok := f.Extra(last); ok {
-				return (succ == 0) == t
-			}
-		}
-		if f.caseOf[last] {
-			if cv := f.constVal(last); cv != nil {
-				truth, decided = constant.Compare(v, token.EQL, cv), true
-			}
-		} else if be, ok := ast.Unparen(last).(*ast.BinaryExpr); ok && (be.Op == token.EQL || be.Op == token.NEQ) {
-			var other ast.Expr
-			if id := identOf(be.X); id != nil && f.info.Uses[id] == f.obj {
-				other = be.Y
-			} else if id := identOf(be.Y); id != nil && f.info.Uses[id] == f.obj {
-				other = be.X
-			}
-			if other != nil {
-				if cv := f.constVal(other); cv != nil {
-					truth, decided = constant.Compare(v, be.Op, cv), true
-				} else {
-					f.Undecided = true
-				}
-			}
-		} else {
-			mentions := false
-			ast.Inspect(last, func(n ast.Node) bool {
-				if id, ok := n.(*ast.Ident); ok && f.info.Uses[id] == f.obj {
-					mentions = true
-				}
-				return true
-			})
-			if mentions {
-				f.Undecided = true
-			}
-		}
+		truth, decided := f.evalCond(v, last)
 		if !decided {
 			return true
 		}
 		return (succ == 0) == truth
 	}
+}
+
+// evalCond folds a branch condition for the situation "the variable holds v": leaves are
+// comparisons of the variable with a constant of the enum, case labels of a switch on it, and
+// whatever Extra resolves; !, && and || combine them in Kleene logic (go/cfg does not split
+// short-circuit operators, so the whole condition is the last node of the block). A leaf that
+// mentions the variable in any other form leaves the walk undecided.
+func (f *cirFlow) evalCond(v constant.Value, e ast.Expr) (truth, decided bool) {
+	e = ast.Unparen(e)
+	if f.Extra != nil {
+		if t, ok := f.Extra(e); ok {
+			return t, true
+		}
+	}
+	if f.caseOf[e] {
+		if cv := f.constVal(e); cv != nil {
+			return constant.Compare(v, token.EQL, cv), true
+		}
+	}
+	switch x := e.(type) {
+	case *ast.UnaryExpr:
+		if x.Op == token.NOT {
+			t, ok := f.evalCond(v, x.X)
+			return !t, ok
+		}
+	case *ast.BinaryExpr:
+		switch x.Op {
+		case token.LAND, token.LOR:
+			lt, lok := f.evalCond(v, x.X)
+			rt, rok := f.evalCond(v, x.Y)
+			short := x.Op == token.LOR // the value that decides alone
+			if (lok && lt == short) || (rok && rt == short) {
+				return short, true
+			}
+			if lok && rok {
+				return !short, true
+			}
+			return false, false
+		case token.EQL, token.NEQ:
+			var other ast.Expr
+			if id := identOf(x.X); id != nil && f.info.Uses[id] == f.obj {
+				other = x.Y
+			} else if id := identOf(x.Y); id != nil && f.info.Uses[id] == f.obj {
+				other = x.X
+			}
+			if other != nil {
+				if cv := f.constVal(other); cv != nil {
+					return constant.Compare(v, x.Op, cv), true
+				}
+				f.Undecided = true
+				return false, false
+			}
+		}
+	}
+	mentions := false
+	ast.Inspect(e, func(n ast.Node) bool {
+		if id, ok := n.(*ast.Ident); ok && f.info.Uses[id] == f.obj {
+			mentions = true
+		}
+		return true
+	})
+	if mentions {
+		f.Undecided = true
+	}
+	return false, false
 }
 
 // Reached returns the CFG nodes executed after the conversion when it reported v, up to the
